@@ -151,3 +151,128 @@ pub fn record_many_scales_by_1024_into_one_bucket() {
     core::mem::forget(strat);
     core::mem::forget(r);
 }
+
+// ---- observation capture: what Histogram / SharedHistogram hand to their strategy ---------------------------
+pub mod capture_support {
+    use metrique_aggregation::histogram::{AggregationStrategy, Histogram, SharedAggregationStrategy, SharedHistogram};
+    use metrique_writer_core::{MetricFlags, MetricValue, Observation, Unit, Value, ValueWriter};
+
+    /// a source that writes one solver-chosen observation
+    pub struct Src(pub Observation);
+    impl Value for Src {
+        fn write(&self, w: impl ValueWriter) {
+            w.metric([self.0], Unit::None, [], MetricFlags::empty())
+        }
+    }
+    impl MetricValue for Src {
+        type Unit = metrique_writer_core::unit::None;
+    }
+
+    /// recording strategies: remember the calls they receive in statics (the traits' default `record` forwards to
+    /// `record_many(v, 1)`), one log for the non-atomic wrapper's strategy and one for the atomic wrapper's
+    #[derive(Clone, Copy)]
+    pub struct Log {
+        pub calls: u8,
+        pub value_bits: u64,
+        pub count: u64,
+    }
+    pub static mut PLAIN: Log = Log { calls: 0, value_bits: 0, count: 0 };
+    pub static mut SHARED: Log = Log { calls: 0, value_bits: 0, count: 0 };
+    pub fn canon(v: f64) -> u64 {
+        if v.is_nan() { 0x7ff8_0000_0000_0000 } else { v.to_bits() }
+    }
+    #[derive(Default)]
+    pub struct Rec;
+    impl AggregationStrategy for Rec {
+        fn record_many(&mut self, value: f64, count: u64) {
+            unsafe {
+                PLAIN = Log { calls: PLAIN.calls + 1, value_bits: canon(value), count };
+            }
+        }
+        fn drain(&mut self) -> Vec<Observation> {
+            Vec::new()
+        }
+    }
+    #[derive(Default)]
+    pub struct SharedRec;
+    impl SharedAggregationStrategy for SharedRec {
+        fn record_many(&self, value: f64, count: u64) {
+            unsafe {
+                SHARED = Log { calls: SHARED.calls + 1, value_bits: canon(value), count };
+            }
+        }
+        fn drain(&self) -> Vec<Observation> {
+            Vec::new()
+        }
+    }
+}
+
+fn check_capture(kind: u8) -> (u64, f64, f64, u64) {
+    use capture_support::*;
+    use metrique_aggregation::histogram::{Histogram as Plain, SharedHistogram};
+    use metrique_writer_core::Observation;
+    let u: u64 = kani::any();
+    let fb: u64 = kani::any();
+    // Repeated: the mean is a division of two symbolic floats in the code and in the oracle: 4 significant bits each
+    let tm: u64 = kani::any();
+    let te: u64 = kani::any();
+    let om: u64 = kani::any();
+    let os: u32 = kani::any();
+    kani::assume(tm < 16 && te < 2047 && om < 16 && os <= 60);
+    let total = f64::from_bits((te << 52) | (tm << 48));
+    let occ = om << os;
+    let obs = match kind {
+        0 => Observation::Unsigned(u),
+        1 => Observation::Floating(f64::from_bits(fb)),
+        _ => Observation::Repeated { total, occurrences: occ },
+    };
+    let mut plain: Plain<Src, Rec> = Plain::new(Rec::default());
+    plain.add_value(Src(obs));
+    let shared: SharedHistogram<Src, SharedRec> = SharedHistogram::new(SharedRec::default());
+    shared.add_value(Src(obs));
+    let (p, s) = unsafe { (PLAIN, SHARED) };
+    let (calls, bits, count) = match kind {
+        0 => (1, canon(u as f64), 1),
+        1 => (1, canon(f64::from_bits(fb)), 1),
+        _ if occ == 0 => (0, 0, 0),
+        _ => (1, canon(total / occ as f64), occ),
+    };
+    assert!(p.calls == calls && s.calls == calls, "one strategy call per usable observation, none for zero occurrences");
+    if calls == 1 {
+        assert!(p.count == count && s.count == count, "the occurrence count is handed on unchanged (counts are conserved)");
+        assert!(p.value_bits == bits, "Histogram records the value itself / the mean total/occurrences");
+        assert!(s.value_bits == bits, "SharedHistogram records exactly what Histogram records");
+    }
+    (u, f64::from_bits(fb), total, occ)
+}
+
+// @check C11 quick timeout=900 mem=14
+// @encodes metrique_aggregation::histogram::Histogram::add_value, SharedHistogram::add_value (their Capturer::metric), AggregationStrategy::record / SharedAggregationStrategy::record (default methods)
+// @bounds one observation: Unsigned(any u64) / Floating(any f64 incl. NaN, inf) / Repeated{total: any sign-less exponent x 4 mantissa bits, occurrences: m<<s with m<16, s<=60, incl. 0}; recording strategies supplied by the harness
+// @oracle both wrappers hand the strategy exactly one (value, count): (u as f64, 1), (f, 1), (total/occurrences, occurrences) bit-for-bit, nothing for zero occurrences; atomic and non-atomic wrappers agree
+// @outside more than one observation per value; totals / occurrence counts with more than 4 significant bits (symbolic float division)
+#[kani::proof]
+pub fn capture_unsigned_source() {
+    let (u, _, _, _) = check_capture(0);
+    kani::cover!(u > (1u64 << 60), "an integer beyond f64's exact range");
+}
+// @check C11 quick timeout=900 mem=14
+// @encodes metrique_aggregation::histogram::Histogram::add_value, SharedHistogram::add_value
+// @bounds see capture_unsigned_source
+// @oracle see capture_unsigned_source
+#[kani::proof]
+pub fn capture_floating_source() {
+    let (_, f, _, _) = check_capture(1);
+    kani::cover!(f.is_nan(), "NaN source");
+    kani::cover!(f > 1.0e300, "huge float source");
+}
+// @check C11 quick timeout=1800 mem=14
+// @encodes metrique_aggregation::histogram::Histogram::add_value, SharedHistogram::add_value
+// @bounds see capture_unsigned_source
+// @oracle see capture_unsigned_source
+#[kani::proof]
+pub fn capture_repeated_source() {
+    let (_, _, total, occ) = check_capture(2);
+    kani::cover!(occ > 1 && total > 1.0 && total < 1.0e9, "a pre-aggregated observation with several occurrences");
+    kani::cover!(occ == 0, "zero occurrences");
+}
